@@ -8,6 +8,12 @@ NA_REASONS = {}
 p = os.path.join(ROOT, "checks", "not_applicable.json")
 if os.path.exists(p):
     NA_REASONS = json.load(open(p))
+LEVELS = ["exploration", "fault_enumeration", "model_checking", "proof", "translation_validation", "other"]
+def norm_level(l):
+    if l in LEVELS: return l
+    for k in LEVELS:
+        if l.startswith(k): return k
+    return "other"
 for pr in props:
     pid = pr["id"]
     f = os.path.join(ROOT, "checks", pid.lower() + ".py")
@@ -24,7 +30,7 @@ for pr in props:
         evidence_file=f"/verif/evidence/{pid}.json",
         replay_cmd_template=f"./check {pid} --replay {{path}}",
         engine=s.get("engine", "coq-props+corr-direct"),
-        level_claimed=dict(category=s.get("level", "proof"), text=s["text"], design_ref=s.get("design_ref", "DESIGN.md section 6")),
+        level_claimed=dict(category=norm_level(s.get("level", "proof")), text=s["text"], design_ref=s.get("design_ref", "DESIGN.md section 6")),
         level_note=s["level_note"],
         technique=s["technique"],
     ))
